@@ -13,6 +13,7 @@ META = {
         "sends, queued events that are not allowed, and a BaseException fault class. After each failure "
         "the remaining 2-6 events of the history are checked too. Oracle: exception object reaches the "
         "outermost caller, state = source|target by phase, dropped tokens never run, next send normal. "
+        "Failures come as subclasses of RuntimeError/AttributeError/KeyError/NotImplementedError/TypeError/LookupError/ValueError (and StopIteration on synchronous machines) with one class name; property guards raise too; callbacks suspend, so siblings overlap. "
         "distinct_nontrivial = distinct crash classes (phase, first/nested/initial event, provider, "
         "queue non-empty, rtc, engine, exception kind) actually hit."
     ),
